@@ -694,6 +694,31 @@ def lenstep(rep, c, sfx):
             or any(kind(x) == "Loop" for x in walk(ln["body"]))
         if counting:
             r.note("%s::len counts the remaining items of the window (valid for any step width)" % short)
+            # ... provided it counts over the whole window: a range built from the window bounds must be
+            # exactly start..end (after next_back the slot before `end` can hold a Start token as well)
+            lets = hirq.lets(ln["body"])
+            for x in walk(ln["body"]):
+                if kind(x) != "Struct" or not str(x.get("path", "")).startswith("core::ops::range::Range"):
+                    continue
+                for f in x["fields"]:
+                    e = peel(f["e"])
+                    hops = 0
+                    while kind(e) == "Path" and e.get("res") == "local" and e["id"] in lets and hops < 3:
+                        e = peel(lets[e["id"]][0])
+                        hops += 1
+                    used = sorted(set(y["name"] for y in walk(e) if kind(y) == "Field" and base_name(y["base"]) == "self"
+                                      and y["name"] in ("start", "end")))
+                    if not used:
+                        continue
+                    key = "len:%s:range.%s" % (short, f["name"])
+                    r.instance(key, where(f["e"]), hirq.expr_text(f["e"])[:40])
+                    exact = kind(e) == "Field" and base_name(e["base"]) == "self" and e["name"] == f["name"]
+                    if not exact:
+                        r.violation(key, where(f["e"]),
+                                    "%s::len counts over a range whose %s bound is `%s`, not the window's own `%s`: "
+                                    "tokens of the window are left out (after next_back the last slot of the window "
+                                    "can be the Start of a pair still to come), so len()/size_hint() disagree with "
+                                    "iteration" % (short, f["name"], hirq.expr_text(f["e"])[:40], f["name"]))
             continue
         # scale: (end - start) >> s
         shift = 0
